@@ -52,6 +52,7 @@ pub fn gen_c01(ctx: &mut Ctx) {
         crate::gen::structs::big_table_case(ctx, w);
     }
     bloom_sparse_unions(ctx, 60 * ctx.tier_scale);
+    gen_c06_cuckoo_sparse(ctx, 20 * ctx.tier_scale);
     for _ in 0..(12 * ctx.tier_scale) {
         ctx.case("bloom");
         bloom_history(ctx, 150);
@@ -959,6 +960,9 @@ pub fn gen_c14(ctx: &mut Ctx) {
         cuckoo_history(ctx, 260);
     }
     cuckoo_big_full(ctx, 4 * ctx.tier_scale);
+    // unions of sparse filters whose fingerprint width does not divide 64 (slots straddle the words of the
+    // packed table): the multiset of the receiver is the sum of both
+    gen_c06_cuckoo_sparse(ctx, 30 * ctx.tier_scale);
 }
 
 /// one extreme RNG word (all ones / all zeros) at every possible call position of a short run
